@@ -1199,13 +1199,13 @@ def _named_pairs(dt):
 def _relations(dt):
     """Named two-event schedules (used where the full lattice is too dear: Scenario runs, the second step size of the
     quick tier): one representative of every relation of the two intervals to the grid and to each other."""
-    d, h = dt, dt // 2
-    return [
-        ("first_across_boundary_second_waits", (d + 10, 2 * d + 10), (2 * d + 40, 3 * d + 10)),
+    d, h, q, e = dt, dt // 2, dt // 6, dt // 12  # offsets scale with the step (60 s: 30, 10, 5 s); 1 s / 7 s are absolute
+    out = [
+        ("first_across_boundary_second_waits", (d + q, 2 * d + q), (2 * d + 4 * q, 3 * d + q)),
         ("first_across_two_boundaries_second_waits", (d + 1, 3 * d + 7), (3 * d + h, 4 * d + h)),
         ("first_across_boundary_second_starts_next_boundary", (d + h, 2 * d + h), (3 * d, 3 * d + h)),
-        ("second_inside_step_where_first_ends", (d + h, 2 * d + 5), (2 * d + 10, 2 * d + h)),
-        ("both_inside_one_step", (d + 5, d + 20), (d + h, 2 * d - 5)),
+        ("second_inside_step_where_first_ends", (d + h, 2 * d + e), (2 * d + q, 2 * d + h)),
+        ("both_inside_one_step", (d + e, d + 2 * q), (d + h, 2 * d - e)),
         ("back_to_back_joint_off_grid", (d + 1, 2 * d + h), (2 * d + h, 3 * d + 7)),
         ("back_to_back_joint_on_grid", (d + 1, 2 * d), (2 * d, 3 * d + 7)),
         ("first_ends_on_boundary_second_starts_1s_later", (d + 1, 2 * d), (2 * d + 1, 3 * d)),
@@ -1214,6 +1214,10 @@ def _relations(dt):
         ("second_long_across_three_boundaries", (d + h, 2 * d + 1), (2 * d + h, 5 * d + 7)),
         ("both_on_grid_consecutive_steps", (d, 2 * d), (3 * d, 4 * d)),
     ]
+    for name, a, b in out:
+        if not (0 < a[0] < a[1] <= b[0] < b[1] <= SCHED_STEPS * dt):
+            raise AssertionError(f"harness: schedule {name} is not a chain of two intervals for dt={dt}: {a} {b}")
+    return out
 
 
 def _relation(a, b, dt):
